@@ -945,3 +945,208 @@ def check_alive_and_reported(h, res):
     if v["shim_violations"]:
         out.append(dict(kind="fd-misuse", msg=f"{v['shim_violations']}; history={h.name}", fp="fd-misuse " + v["shim_violations"][0][0]))
     return out
+
+
+# =================================================================================================
+# C03: per-operation contract (required / allowed events) and soundness of every event
+# =================================================================================================
+def _flav(kind):
+    return "Dir" if kind == "d" else "File"
+
+
+def contract(m, op, cfg):
+    """(required, allowed) sets of (class name, src, dest, synthetic) for operation `op` applied in model `m`
+    (state before the operation), for configuration cfg.  Paths are root-relative ('' = root, None = empty)."""
+    rec, full = cfg.recursive, cfg.full
+    k = op[0]
+    req, alw = set(), set()
+
+    def ev(cls, src, dest=None, syn=False):
+        return (cls, src, dest, syn)
+
+    def dm(p):
+        return ev("DirModifiedEvent", p)
+
+    def visible(p):
+        return rec or (p is not None and "/" not in p)
+
+    def arrive(p, kind, sub, *, moved_in):
+        """Entry p (with subtree `sub`: rel->kind) appears."""
+        r, a = set(), set()
+        if not visible(p):
+            return r, a
+        if moved_in and full:
+            r.add(ev(_flav(kind) + "MovedEvent", None, p))
+        else:
+            r.add(ev(_flav(kind) + "CreatedEvent", p))
+        r.add(dm(parent(p)))
+        if rec and kind == "d":
+            for q, kk in sub.items():
+                if moved_in:
+                    r.add(ev(_flav(kk) + "CreatedEvent", p + "/" + q, None, True))
+                else:
+                    r.add(ev(_flav(kk) + "CreatedEvent", p + "/" + q))
+                    r.add(dm(parent(p + "/" + q)))
+                # either way of learning about a descendant is acceptable
+                a.add(ev(_flav(kk) + "CreatedEvent", p + "/" + q, None, True))
+                a.add(ev(_flav(kk) + "CreatedEvent", p + "/" + q))
+                a.add(dm(parent(p + "/" + q)))
+        return r, a
+
+    def depart(p, kind, *, moved_out):
+        r, a = set(), set()
+        if not visible(p):
+            return r, a
+        if moved_out and full:
+            r.add(ev(_flav(kind) + "MovedEvent", p, None))
+        else:
+            r.add(ev(_flav(kind) + "DeletedEvent", p))
+        r.add(dm(parent(p)))
+        return r, a
+
+    if k == "mknod":
+        req, alw = arrive(op[1], "f", {}, moved_in=False)
+    elif k == "mkdir":
+        req, alw = arrive(op[1], "d", {}, moved_in=False)
+    elif k == "makedirs":
+        top = parent(op[1])
+        req, alw = arrive(top, "d", {"d": "d"}, moved_in=False)
+    elif k == "append":
+        p = op[1]
+        if visible(p):
+            req = {ev("FileOpenedEvent", p), ev("FileModifiedEvent", p), ev("FileClosedEvent", p), dm(parent(p))}
+    elif k == "truncate":
+        p = op[1]
+        if visible(p):
+            req = {ev("FileModifiedEvent", p)}
+            alw = {dm(parent(p))}
+    elif k == "chmod":
+        p = op[1]
+        if visible(p):
+            req = {ev(_flav(m.tree[p]) + "ModifiedEvent", p)}
+    elif k == "unlink":
+        req, alw = depart(op[1], "f", moved_out=False)
+    elif k == "rmdir":
+        req, alw = depart(op[1], "d", moved_out=False)
+        alw.add(dm(op[1]))
+    elif k == "rmtree":
+        p = op[1]
+        sub = m.subtree(p)
+        req, alw = depart(p, "d", moved_out=False)
+        if visible(p):
+            alw.add(dm(p))
+        if rec:
+            for q, kk in sub.items():
+                req.add(ev(_flav(kk) + "DeletedEvent", q))
+                req.add(dm(parent(q)))
+                if kk == "d":
+                    alw.add(dm(q))
+    elif k == "rename":
+        a, b = op[1], op[2]
+        kind = m.tree[a]
+        sub = {q[len(a) + 1:]: kk for q, kk in m.subtree(a).items()}
+        va, vb = visible(a), visible(b)
+        if va and vb:
+            req.add(ev(_flav(kind) + "MovedEvent", a, b))
+            req.add(dm(parent(a)))
+            req.add(dm(parent(b)))
+            if rec and kind == "d":
+                for q, kk in sub.items():
+                    req.add(ev(_flav(kk) + "MovedEvent", a + "/" + q, b + "/" + q, True))
+            # timing variants the library is entitled to: unpaired halves
+            r1, a1 = depart(a, kind, moved_out=True)
+            r2, a2 = arrive(b, kind, sub, moved_in=True)
+            alw |= r1 | a1 | r2 | a2
+            r1, a1 = depart(a, kind, moved_out=False)
+            r2, a2 = arrive(b, kind, sub, moved_in=False)
+            alw |= {e for e in r1 | r2 if e[0].endswith(("DeletedEvent", "CreatedEvent"))}
+        elif va:
+            req, alw = depart(a, kind, moved_out=True)
+        elif vb:
+            req, alw = arrive(b, kind, sub, moved_in=True)
+        if b in m.tree and m.tree[b] == "d" and visible(b):
+            alw.add(dm(b))     # the replaced (empty) directory itself
+    elif k == "move_out":
+        req, alw = depart(op[1], m.tree[op[1]], moved_out=True)
+    elif k == "move_in_file":
+        req, alw = arrive(op[1], "f", {}, moved_in=True)
+    elif k == "move_in_dir":
+        sub = {"d": "d", "f": "f"} if op[2] == "tree" else {}
+        req, alw = arrive(op[1], "d", sub, moved_in=True)
+    elif k in ("out_touch", "out_rmtree"):
+        pass   # entries outside the watched scope: nothing may be reported
+    elif k == "rmtree_root":
+        req, alw = set(), None   # C07's business
+    return req, (None if alw is None else (alw | req))
+
+
+def check_contract(h, res):
+    """C03: completeness of a single drained operation's contract + soundness of every event of the history."""
+    out = []
+    v = res.value
+    if v is None or v["root_gone"] or res.errors:
+        return out
+    cfg = h.cfg
+    m = Model(h.tree0)
+    allowed_union = set()
+    per_op = []
+    prev_drained = True
+    for i, (op, pace) in enumerate(h.history):
+        req, alw = contract(m, op, cfg)
+        drained = pace in ("drain", "drain-soft") or i == len(h.history) - 1
+        per_op.append((op, req, alw, prev_drained and drained))
+        if alw is not None:
+            allowed_union |= alw
+        m.apply(op)
+        prev_drained = drained
+    evs = [e for e in v["events"]]
+
+    def sig(e):
+        return (e[1], e[2], e[3], e[5])
+
+    # flavour consistency
+    for e in evs:
+        if e[1].startswith("Dir") != bool(e[4]):
+            out.append(dict(kind="flavour-flag", msg=f"{e} has is_directory={e[4]}; history={h.name}", fp="flavour-flag"))
+    # soundness
+    for e in evs:
+        s_ = sig(e)
+        if s_ not in allowed_union:
+            cls = e[1]
+            why = "phantom"
+            if any(x is not None and x.startswith("!") for x in (e[2], e[3])):
+                why = "path-outside-root"
+            moved_out_dirs = [o[1] for o, _ in h.history if o[0] == "move_out"]
+            if any(e[2] is not None and (e[2] == d or inside(e[2], d)) for d in moved_out_dirs) and \
+                    any(o[0] in ("out_touch", "out_rmtree") for o, _ in h.history):
+                why = "event for an entry of a directory that was moved out of the tree"
+            elif e[5]:
+                why = "unjustified synthetic event"
+            out.append(dict(kind="unjustified-event",
+                            msg=f"event {e} is not explained by the history; history={h.name}; all events={evs}",
+                            fp=(f"unjustified event: {why}" if why.startswith("event for an entry") else
+                                f"unjustified {cls.replace('File', 'X').replace('Dir', 'X')}: {why}"),
+                            detail=dict(event=list(s_))))
+            break
+    # completeness for operations issued one at a time
+    for i, (op, req, alw, single) in enumerate(per_op):
+        if not single or alw is None:
+            continue
+        got = {sig(e) for e in evs if e[0] == i}
+        missing = req - got
+        extra = got - alw
+        if missing:
+            mm = sorted(missing, key=repr)[0]
+            out.append(dict(kind="contract-missing",
+                            msg=f"operation {op} (issued alone, drained) did not produce required {sorted(missing, key=repr)}; "
+                                f"got {sorted(got, key=repr)}; history={h.name}",
+                            fp=f"contract-missing {op[0]}: {mm[0]}{' synthetic' if mm[3] else ''}"))
+        if extra and op[0] in ("out_touch", "out_rmtree"):
+            continue   # reported by the soundness clause above (one root cause, one fingerprint)
+        if extra:
+            xx = sorted(extra, key=repr)[0]
+            out.append(dict(kind="contract-extra",
+                            msg=f"operation {op} (issued alone, drained) produced {sorted(extra, key=repr)} outside its contract; "
+                                f"got {sorted(got, key=repr)}; history={h.name}",
+                            fp=f"contract-extra {op[0]}: {xx[0]}{' synthetic' if xx[3] else ''}"))
+    return out
